@@ -86,6 +86,8 @@ def step (s : Sys) (line : String) : Sys × String :=
   | ["open"] => run1 s .reopen
   | ["load"] => if s.alive then (s, fmtLoad s.st.load) else (s, "dead")
   | ["disk"] => (s, fmtDisk s.disk)
+  | ["writer"] =>
+    (s, if s.alive then (match s.st.writer with | some n => toString n | none => "-") else "-")
   | ["bases", c, ft] =>
     match parseFault ft with
     | some ft =>
